@@ -12,6 +12,7 @@ import QrlewModel.Model.Tau
 import QrlewModel.Model.Rel
 import QrlewModel.Model.Quote
 import QrlewModel.Model.Namer
+import QrlewModel.Generated.Dialects
 /-!
 JSON-lines driver over the executable model.  One input line = one harness line
 (`{"stream":..,"case":..,..}`); one output line = `{"model": <canonical output>}`.
@@ -257,13 +258,18 @@ def runOfInt (c : Json) : Option Json := do
   let n ← (c.getObjVal? "n").toOption >>= jInt?
   pure (Json.str (toString (ofInt n)))
 
-def runQuote (c aux : Json) : Option Json := do
+def optStr (o : Option (List Char)) : Json := match o with | some v => Json.str (String.ofList v) | none => Json.null
+
+/-- rendered text and value read back, from the quoting model and the generated dialect table -/
+def runQuote (c : Json) : Option Json := do
   let s ← (c.getObjVal? "s").toOption >>= fun t => t.getStr?.toOption
   let kind ← (c.getObjVal? "kind").toOption >>= fun t => t.getStr?.toOption
   if kind == "col" then pure Json.null else
-  let qs ← (aux.getObjVal? "q").toOption >>= fun t => t.getStr?.toOption
-  let q ← qs.toList.head?
-  pure (Json.str (String.ofList (q :: Quote.esc q (Char.ofNat 0) s.toList ++ [q])))
+  let d ← (c.getObjVal? "dialect").toOption >>= fun t => t.getStr?.toOption
+  let row ← Generated.dialects.find? (fun r => r.name == (if d == "pg" then "postgresql" else d))
+  let (q, bs) := if kind == "lit" then ('\'', row.backslash) else (row.write, false)
+  let text := Quote.write q s.toList
+  pure (Json.mkObj [("text", Json.str (String.ofList text)), ("back", optStr (Quote.readBack q bs text))])
 
 def opndOfJson? (j : Json) : Option Operand := do
   let tag ← (j.getArrVal? 0).toOption >>= fun t => t.getStr?.toOption
@@ -400,7 +406,7 @@ def handle (line : String) : Json :=
       | "hier" => runHier c
       | "fnimg" => runFnImg c
       | "ofint" => runOfInt c
-      | "quote" => runQuote c ((j.getObjVal? "aux").toOption.getD Json.null)
+      | "quote" => runQuote c
       | "filter" => runFilter c
       | "limit" => runLimit c
       | "sizes" => runSizes c
